@@ -88,3 +88,18 @@ Definition c24_chk (avail : bool) (p : prog) (defers : list defer) (checks : lis
            (impl_outs : list (list val)) (impl_obs : list N) : N :=
   verdict (run_agree avail p (map ext_of h) ordered impl_outs impl_obs)
           (c24_holds avail defers checks ordered impl_outs impl_obs).
+
+(* ------------------------------------------------------------------ C22 *)
+
+(* one history on several shape-perturbed variants of a program: bit0 = some variant's
+   implementation run differs from the model interpreting that variant's real partition,
+   bit1 = two variants' implementation runs differ from each other *)
+Definition c22_chk (avail : bool) (ordered : list bool) (h : list (list (list val)))
+           (runs : list (prog * (list (list val) * list N))) : N :=
+  verdict (forallb (fun r => run_agree avail (fst r) (map ext_of h) ordered (fst (snd r)) (snd (snd r))) runs)
+          (match runs with
+           | [] => true
+           | r0 :: rest =>
+               forallb (fun r => outs_eqb ordered (fst (snd r0)) (fst (snd r)) &&
+                                 nlist_eqb (snd (snd r0)) (snd (snd r))) rest
+           end).
